@@ -400,6 +400,13 @@ func (cf *caseFn) walkBlocked(start int, truth map[string]bool, block map[int]bo
 		if rs, ok := g.Nodes[n].N.(*ast.ReturnStmt); ok {
 			var parts []string
 			for _, r := range rs.Results {
+				// a boolean result that the class decides is rendered as its value
+				if _, isIdent := ast.Unparen(r).(*ast.Ident); !isIdent && cf.isBool(r) {
+					if v := cf.eval(r, truth); v != triUnknown {
+						parts = append(parts, fmt.Sprint(v == triTrue))
+						continue
+					}
+				}
 				parts = append(parts, cf.canon(r))
 			}
 			if len(rs.Results) == 0 {
@@ -550,6 +557,14 @@ func (cf *caseFn) atoms() map[string]bool {
 			}
 			if e.SwitchTag != nil && e.CaseVal != nil {
 				out[eqKey(cf.canon(e.SwitchTag), cf.canon(e.CaseVal))] = true
+			}
+		}
+		// tests inside boolean return expressions
+		if rs, ok := n.N.(*ast.ReturnStmt); ok {
+			for _, r := range rs.Results {
+				if _, isIdent := ast.Unparen(r).(*ast.Ident); !isIdent && cf.isBool(r) {
+					leaves(r)
+				}
 			}
 		}
 	}
